@@ -263,3 +263,18 @@ Proof.
   induction fuel as [|f IH]; intros s todo H; destruct todo as [|o r]; cbn [run_release fst]; try assumption.
   apply IH. apply log_ok_step. assumption.
 Qed.
+
+(* ---- releasing some handles while others are kept ---- *)
+Theorem inv_run_frame fuel : forall s todo extra, inv s (todo ++ extra) ->
+  inv (fst (run_release fuel s todo)) (snd (run_release fuel s todo) ++ extra).
+Proof.
+  induction fuel as [|f IH]; intros s todo extra I; destruct todo as [|o r]; cbn [run_release fst snd]; try assumption.
+  rewrite <- app_comm_cons in I. apply inv_step in I. rewrite app_assoc in I. apply IH. assumption.
+Qed.
+
+Lemma inv_cnt_ext s R R' : inv s R -> (forall o, cnt o R = cnt o R') -> inv s R'.
+Proof.
+  intros [A B C D E F G] H. constructor; try assumption.
+  - intros o Ho. rewrite <- H. apply A. assumption.
+  - intros o [Ho|Ho]; apply B; [left; assumption|right]. apply cnt_pos_in. rewrite H. apply cnt_pos_in. assumption.
+Qed.
